@@ -53,6 +53,8 @@ type netNext struct {
 }
 
 type netWorld struct {
+	lastDisc map[[2]int]time.Duration
+	appScore map[string]float64 // "node|peer" -> application score (net_score runs)
 	s      *sim
 	plan   *Plan
 	nodes  []*simNode
@@ -125,7 +127,26 @@ func newNetWorld(s *sim) *netWorld {
 // start creates the nodes described by the plan.
 func (w *netWorld) start() bool {
 	p := w.plan
+	nExit := 0
 	verifYieldFn = func(point int) {
+		if point == verifInboundExit {
+			// a slow goroutine: the handler of a dead inbound stream reports the closure late
+			d := p.ki("inbound_exit_delay_us", 0)
+			if d <= 0 {
+				return
+			}
+			w.s.mu.Lock()
+			nExit++
+			w.s.faults["inbound_handler_exit_delayed"]++
+			w.s.mu.Unlock()
+			w.s.park("net-inbound-exit", nil, func(g *gate) {
+				// (the delay depends on the step, not on the gate: handlers that stop in the same step
+				// are interchangeable)
+				dd := time.Duration(1+w.s.hn(fmt.Sprintf("inexit|%d", w.s.steps), d)) * time.Microsecond
+				w.s.after(dd, "inbound-handler-exits "+g.id, func() { w.s.release(g, 0) })
+			}, nil)
+			return
+		}
 		if point != verifLoopRequest {
 			return
 		}
@@ -155,10 +176,26 @@ func (w *netWorld) start() bool {
 		case "laxnosign":
 			opts = append(opts, WithMessageSignaturePolicy(LaxNoSign))
 		}
+		i := i
 		if router == "gossipsub" {
 			opts = append(opts, WithGossipSubParams(w.gp), WithFloodPublish(p.kb("flood_publish")))
+			if p.kb("net_score") {
+				// peer scoring driven by an application score the plan sets per (node, peer): a peer
+				// below the graylist threshold has its payload and control traffic ignored
+				sp := &PeerScoreParams{
+					AppSpecificScore:  func(pid peer.ID) float64 { return w.getAppScore(i, pid) },
+					AppSpecificWeight: 1, DecayInterval: time.Second, DecayToZero: 0.01, RetainScore: 10 * time.Second,
+					Topics: map[string]*TopicScoreParams{},
+				}
+				th := &PeerScoreThresholds{GossipThreshold: -10, PublishThreshold: -20, GraylistThreshold: -30, AcceptPXThreshold: 10, OpportunisticGraftThreshold: 1}
+				opts = append(opts, WithPeerScore(sp, th))
+			}
 		}
-		i := i
+		if lim := p.ki("sub_limit", 0); lim > 0 {
+			// at most lim subscription entries per RPC (never fewer than there are topics: a hello
+			// packet of a correct peer always fits)
+			opts = append(opts, WithSubscriptionFilter(WrapLimitSubscriptionFilter(NewAllowlistSubscriptionFilter(w.topics...), lim)))
+		}
 		switch p.ki("val_mode", 0) {
 		case 1:
 			opts = append(opts, WithDefaultValidator(ValidatorEx(func(ctx context.Context, from peer.ID, m *Message) ValidationResult {
@@ -184,6 +221,12 @@ func (w *netWorld) start() bool {
 		w.s.settle()
 	}
 	return true
+}
+
+func (w *netWorld) getAppScore(i int, pid peer.ID) float64 {
+	w.s.mu.Lock()
+	defer w.s.mu.Unlock()
+	return w.appScore[fmt.Sprintf("%d|%s", i, pid)]
 }
 
 // verdict of the (network-wide, content-based) application validator
@@ -243,7 +286,9 @@ func (w *netWorld) neighbours(i int) []int {
 // killBudget: the library gives up on a peer whose outbound stream had to be re-opened
 // MaxBackoffAttempts (4) times within 10 minutes while it stayed (or was again) connected; that is a
 // documented design limit, not what C01/C05 are about. The world therefore causes at most 3 stream
-// deaths per pair and run (a disconnect that is followed by a quick reconnect counts as one).
+// deaths per pair and run. A whole-peer disconnect is not one (the back-off is consulted only when
+// the peer is connected at the time the death is handled), unless the reconnect follows within
+// 100 ms: then the old streams' deaths may be handled with the new connection in place.
 func (w *netWorld) killBudget(a, b int) bool {
 	k := pairKey(a, b)
 	if w.kills[k] >= MaxBackoffAttempts-1 {
@@ -290,6 +335,13 @@ func (w *netWorld) exec(it Item) {
 		if a == b || w.connected(a, b) {
 			return
 		}
+		if t, ok := w.lastDisc[pairKey(a, b)]; ok && s.now()-t < 100*time.Millisecond {
+			// the deaths of the old streams may be handled when the peer is connected again: that
+			// counts as a transient stream loss (one of the MaxBackoffAttempts)
+			if !w.killBudget(a, b) {
+				return
+			}
+		}
 		w.conn[pairKey(a, b)] = true
 		w.churn()
 		ha, hb := w.nodes[a].h, w.nodes[b].h
@@ -308,11 +360,33 @@ func (w *netWorld) exec(it Item) {
 				s.identify(hb, ha)
 			}
 		})
-	case "disc":
+	case "score":
+		// node a's application score for b
 		a, b := w.idx(it.a(0)), w.idx(it.a(1))
-		if !w.connected(a, b) || !w.killBudget(a, b) {
+		if a == b || !w.plan.kb("net_score") {
 			return
 		}
+		s.mu.Lock()
+		if w.appScore == nil {
+			w.appScore = map[string]float64{}
+		}
+		w.appScore[fmt.Sprintf("%d|%s", a, w.nodes[b].h.id)] = float64(it.a(2))
+		s.mu.Unlock()
+		if it.a(2) < -30 {
+			s.probe("peer_graylisted")
+		}
+	case "disc":
+		// (a whole-peer disconnect does not touch the dead-peer back-off: it is consulted only when
+		// the peer is still connected at the time its outbound stream is found dead; the event loop
+		// handles the death at this very instant, before any reconnect)
+		a, b := w.idx(it.a(0)), w.idx(it.a(1))
+		if !w.connected(a, b) {
+			return
+		}
+		if w.lastDisc == nil {
+			w.lastDisc = map[[2]int]time.Duration{}
+		}
+		w.lastDisc[pairKey(a, b)] = s.now()
 		delete(w.conn, pairKey(a, b))
 		w.churn()
 		s.fault("disconnect")
